@@ -389,12 +389,12 @@ impl Prop for C11 {
 			if i % nshards != shard {
 				continue;
 			}
-			let big = "u".repeat(5000);
+			let big = gen::filler(5000);
 			let (initial, ops) = match i % 4 {
-				0 => (format!("http://{big}@h/{}", "p".repeat(n)), vec![AOp::SetUserinfo(None), AOp::SetHost("g".into())]),
-				1 => (format!("http://u@{big}:1{}", if n == 0 { String::new() } else { format!("/{}", "p".repeat(n - 1)) }), vec![AOp::SetHost("h".into()), AOp::SetPort(None)]),
-				2 => (format!("//u@h:{}?{}", "7".repeat(5000), "q".repeat(n)), vec![AOp::SetPort(Some("1".into())), AOp::SetUserinfo(Some(big.clone()))]),
-				_ => (format!("s://u@h:1/p#{}", "f".repeat(n)), vec![AOp::SetHost(big.clone()), AOp::SetHost("h".into()), AOp::SetUserinfo(None)]),
+				0 => (format!("http://{big}@h/{}", gen::filler(n)), vec![AOp::SetUserinfo(None), AOp::SetHost("g".into())]),
+				1 => (format!("http://u@{big}:1{}", if n == 0 { String::new() } else { format!("/{}", gen::filler(n - 1)) }), vec![AOp::SetHost("h".into()), AOp::SetPort(None)]),
+				2 => (format!("//u@h:{}?{}", gen::digits(5000), gen::filler(n)), vec![AOp::SetPort(Some("1".into())), AOp::SetUserinfo(Some(big.clone()))]),
+				_ => (format!("s://u@h:1/p#{}", gen::filler(n)), vec![AOp::SetHost(big.clone()), AOp::SetHost("h".into()), AOp::SetUserinfo(None)]),
 			};
 			let fam = if i % 2 == 0 { Fam::Uri } else { Fam::Iri };
 			let full = !initial.starts_with("//");
@@ -402,14 +402,41 @@ impl Prop for C11 {
 				return vec![];
 			}
 		}
+		// a LARGE insertion in front of a LARGE tail, on a buffer with no spare capacity (parsed from a string of
+		// exactly that length): 33 000 .. 140 000 bytes inserted, 40 000 .. 200 000 bytes behind
+		{
+			let mut gi = 0usize;
+			for ins in [33_000usize, 66_000, 70_000, 140_000] {
+				for tail in [40_000usize, 90_000, 200_000] {
+					for shape in 0..4usize {
+						gi += 1;
+						if gi % nshards != shard {
+							continue;
+						}
+						let t = gen::filler(tail);
+						let (initial, ops) = match shape {
+							0 => (format!("file:///{t}#f"), vec![AOp::SetUserinfo(Some(gen::filler(ins))), AOp::SetHost("h".into()), AOp::SetPort(Some("1".into()))]),
+							1 => (format!("s://h?{t}"), vec![AOp::SetPort(Some(gen::digits(ins))), AOp::SetUserinfo(Some("u".into())), AOp::SetPort(None)]),
+							2 => (format!("s://u@h/{t}"), vec![AOp::SetHost(gen::filler(ins)), AOp::SetUserinfo(None), AOp::SetHost("g".into())]),
+							_ => (format!("//h:1/{t}?{t}"), vec![AOp::SetUserinfo(Some(gen::filler(ins))), AOp::SetPort(Some(gen::digits(ins))), AOp::SetUserinfo(Some("v".into()))]),
+						};
+						let fam = if gi % 2 == 0 { Fam::Uri } else { Fam::Iri };
+						let full = !initial.starts_with("//");
+						if !f(Case { fam, full, initial, ops, derive: vec![] }, true) {
+							return vec![];
+						}
+					}
+				}
+			}
+		}
 		// huge sub-components and a huge tail behind the authority
 		{
 			let mut gi = 0usize;
 			for n in gen::huge_sizes(tier).into_iter().chain([(5 << 20) + 1]) {
-				let x = "a".repeat(n);
+				let x = gen::filler(n);
 				for (initial, ops) in [
 					(format!("s://u@h:1/{x}?{x}"), vec![AOp::SetHost("longer.example".into()), AOp::SetUserinfo(Some("user:pw".into())), AOp::SetPort(Some("8080".into())), AOp::SetUserinfo(None), AOp::SetPort(None)]),
-					("s://u@h:1/p?q#f".to_string(), vec![AOp::SetHost(x.clone()), AOp::SetUserinfo(Some(x.clone())), AOp::SetPort(Some("7".repeat(n))), AOp::SetHost("g".into()), AOp::SetUserinfo(None), AOp::SetPort(None)]),
+					("s://u@h:1/p?q#f".to_string(), vec![AOp::SetHost(x.clone()), AOp::SetUserinfo(Some(x.clone())), AOp::SetPort(Some(gen::digits(n))), AOp::SetHost("g".into()), AOp::SetUserinfo(None), AOp::SetPort(None)]),
 					// ... followed on the same thread by an ordinary edit of an ordinary value
 					("//user:pw@example.org:8080/p".to_string(), vec![AOp::SetHost("longer.example.org".into()), AOp::SetUserinfo(Some("someone:secret".into())), AOp::SetPort(Some("65535".into()))]),
 				] {
@@ -473,7 +500,7 @@ impl Prop for C11 {
 				}
 			}
 		}
-		vec!["a 5000-byte sub-component removed / shortened / lengthened in front of a tail of every length 0..=8300 (and the usual limits up to 70 000)", "histories of k+4 calls through one handle, k = 63..1025 around powers of two (thorough: up to 65 537): one sub-component edited, the other two k times, the first again", "huge (1 MiB+3 .. 5 MiB+1) sub-components and tails, each followed by an ordinary edit on the same thread", "authority shapes (4 user infos x 5 hosts x 3 ports) x 5 tails x all call sequences of length <= 2 over 11 calls"]
+		vec!["33 000 .. 140 000 bytes inserted in front of 40 000 .. 200 000 bytes (non-periodic text) on a buffer without spare capacity", "a 5000-byte sub-component removed / shortened / lengthened in front of a tail of every length 0..=8300 (and the usual limits up to 70 000)", "histories of k+4 calls through one handle, k = 63..1025 around powers of two (thorough: up to 65 537): one sub-component edited, the other two k times, the first again", "huge (1 MiB+3 .. 5 MiB+1) sub-components and tails, each followed by an ordinary edit on the same thread", "authority shapes (4 user infos x 5 hosts x 3 ports) x 5 tails x all call sequences of length <= 2 over 11 calls"]
 	}
 
 	fn floors(_tier: Tier) -> Vec<(&'static str, u64)> {
